@@ -38,6 +38,19 @@ def gen_block(rng, name, natoms=None, nrexcl=None):
                 # a second term on the same atoms without an explicit version (multi-term dihedral)
                 if sec == 'dihedrals' and rng.random() < 0.3:
                     rows.append({'atoms': list(idx), 'params': [FUNC[sec]] + [f'{rng.uniform(0.1, 9):.3f}' for _ in range(2)], 'meta': {}})
+                # further terms on the same atoms that carry an explicit version tag equal to a version already taken
+                # (untagged + {"version": 1}; untagged, untagged + {"version": 2}; an #ifdef / #ifndef pair both tagged 1)
+                elif sec in ('bonds', 'angles', 'dihedrals') and rng.random() < 0.12:
+                    def term(meta):
+                        return {'atoms': list(idx), 'params': [FUNC[sec]] + [f'{rng.uniform(0.1, 9):.3f}' for _ in range(2)], 'meta': meta}
+                    shape = rng.choice(['u1', 'uu2', 'guard'])
+                    if shape == 'u1':
+                        rows.append(term({'version': 1}))
+                    elif shape == 'uu2':
+                        rows += [term({}), term({'version': 2})]
+                    else:
+                        rows[-1]['meta'] = {'ifdef': 'FLEXIBLE', 'version': 1}
+                        rows.append(term({'ifndef': 'FLEXIBLE', 'version': 1}))
             inters[sec] = rows
     # make the block connected through bonds (sometimes: through constraints only, a rigid residue without any bond)
     # so that the residue is one fragment
